@@ -17,12 +17,16 @@ import (
 // qualified name N.X from an importing package) is judged rejected-or-faithful.
 
 func c02Lookalike(r *core.Run, goose string) {
-	gps := gen.LookalikePackages(gorun.ModPath)
+	c02LookalikeBatch(r, goose, "c02-lookalike", gen.LookalikePackages(gorun.ModPath))
+	c02LookalikeBatch(r, goose, "c02-lookalike-values", gen.LookalikeValuePackages(gorun.ModPath))
+}
+
+func c02LookalikeBatch(r *core.Run, goose string, batch string, gps []*gen.Package) {
 	var gp []*gorun.Pkg
 	for _, p := range gps {
 		gp = append(gp, &gorun.Pkg{Name: p.Name, Files: map[string]string{p.Name + ".go": p.Source}})
 	}
-	res, err := tvBatch(r, filepath.Join(r.Scratch, "c02-lookalike"), goose, gp, tvOptions{PerPackage: true})
+	res, err := tvBatch(r, filepath.Join(r.Scratch, batch), goose, gp, tvOptions{PerPackage: true})
 	if err != nil {
 		fmt.Println("look-alike packages:", err)
 		r.Inconclusive("lookalike-batch-failed")
@@ -97,7 +101,7 @@ func c02Lookalike(r *core.Run, goose string) {
 			}
 			r.Count("functions_judged", 1)
 			r.Count("lookalike_functions_judged", 1)
-			key := "lookalike/" + p.Name + "/" + fr.Name
+			key := batch + "/" + p.Name + "/" + fr.Name
 			why := rejectedIn[p.Name][fr.Name]
 			if why == "" && p.Name != lib && rejectedIn[p.Name]["import"] != "" {
 				why = "import declaration: " + rejectedIn[p.Name]["import"]
@@ -188,8 +192,8 @@ func c02Lookalike(r *core.Run, goose string) {
 			}
 		}
 	}
-	r.Set("lookalike_package_verdicts", verdicts)
-	r.Set("lookalike_packages", len(res))
+	r.Set(strings.ReplaceAll(batch, "-", "_")+"_verdicts", verdicts)
+	r.Count("lookalike_packages", int64(len(res)))
 }
 
 func onlySource(p *tvPkg) string {
